@@ -35,7 +35,7 @@ out.append("")
 ben = sorted(glob.glob(os.path.join(HERE, "benign", "*", "meta.json")))
 if ben:
     out.append("### 8.3 Property-preserving changes written by independent sub-agents (`benign/<name>/`): negative controls\n")
-    out.append("Each sub-agent saw only the property text and a scratch worktree and was asked for two realistic changes that alter *how* the anchored code computes its results (another exact solver, `np.interp` for `interp1d`, Horner forms, re-associated arithmetic, hand-written quadrature, correct caching, input coercion, new exception subclasses, extra keywords) while every clause of the property stays true; `tools/benigncheck.py` applies each to a scratch worktree and runs the quick checks of every property anchored in the touched files through `VERIF_REPO_SRC`. **Every check must exit 0**; an alarm here is a false alarm of the harness (or a change that is not property-preserving after all) and is analysed in section 6.3. Three rounds: b3 (`Cxxa`, `Cxxb`), b4 (`…2`), b5 (`…3`: caching done correctly, tolerances and guards done correctly).\n")
+    out.append("Each sub-agent saw only the property text and a scratch worktree and was asked for two realistic changes that alter *how* the anchored code computes its results (another exact solver, `np.interp` for `interp1d`, Horner forms, re-associated arithmetic, hand-written quadrature, correct caching, input coercion, new exception subclasses, extra keywords) while every clause of the property stays true; `tools/benigncheck.py` applies each to a scratch worktree and runs the quick checks of every property anchored in the touched files through `VERIF_REPO_SRC`. **Every check must exit 0**; an alarm here is a false alarm of the harness (or a change that is not property-preserving after all) and is analysed in section 6.3. Three rounds: b3 (`Cxxa`, `Cxxb`), b4 (`…2`), b5 (`…3`: caching done correctly, tolerances and guards done correctly), b6 (`…4`: scale-aware numerics and exact limit handling at the ends of the admissible domain).\n")
     out.append("| change | what it does | checks run (all quiet unless noted) |")
     out.append("|---|---|---|")
     for f in ben:
